@@ -103,6 +103,8 @@ def _rename(d, seq):
 
 
 def case(family, spec, genome, parent="chrom", crc=True, fasta=True, rra=True, legs=(1, 2, 3), **kw):
+    if spec is not None and spec.get("feature_collections"):
+        legs = (1,)  # the property's re-parse / fixpoint clauses speak of gene models only
     d = dict(family=family, spec=spec, genome=genome, parent=parent, crc=crc, fasta=fasta, rra=rra, legs=list(legs))
     d.update(kw)
     return d
@@ -121,9 +123,11 @@ def span(spec):
     return min(lo), max(hi)
 
 
-def mode_cases(family, spec, genome, N, full_legs=(1, 2, 3), all_windows=True):
-    """One spec in every export mode.  Legs 2/3 (re-parse, fixpoint) are run in chromosome mode with FASTA and, in
-    chunk-relative mode, on the tightest window without and with FASTA; leg 1 (syntax) in every mode and window."""
+def mode_cases(family, spec, genome, N, full_legs=(1, 2, 3), all_windows=True, chunk_full="both"):
+    """One spec in every export mode.  Leg 1 (syntax) runs in every mode and window.  Legs 2/3 (re-parse, fixpoint) run in
+    chromosome mode with FASTA and, in chunk-relative mode, on the tightest window: with and without FASTA (chunk_full='both') or
+    with FASTA only and only when the window really shifts the coordinates (chunk_full='fasta'), or leg 1 only (chunk_full='none',
+    quick tier, where the chunk-relative re-parse is exercised by the fasta family)."""
     lo, hi = span(spec)
     yield case(family, spec, genome, "chrom", True, True, legs=full_legs)
     yield case(family, spec, genome, "chrom", True, False, legs=(1,))
@@ -132,8 +136,10 @@ def mode_cases(family, spec, genome, N, full_legs=(1, 2, 3), all_windows=True):
     for a, b in wins:
         tight = (a, b) == (lo, hi)
         # with a == 0 the chunk-relative rows are the chromosome rows: legs 2/3 would repeat the chromosome-mode run
-        yield case(family, spec, genome, ["chunk", a, b], False, False, legs=full_legs if (tight and a > 0) else (1,))
-        yield case(family, spec, genome, ["chunk", a, b], False, True, legs=full_legs if tight else (1,))
+        plain = full_legs if (tight and a > 0 and chunk_full == "both") else (1,)
+        with_fasta = full_legs if (tight and chunk_full != "none" and (a > 0 or chunk_full == "both")) else (1,)
+        yield case(family, spec, genome, ["chunk", a, b], False, False, legs=plain)
+        yield case(family, spec, genome, ["chunk", a, b], False, True, legs=with_fasta)
         yield case(family, spec, genome, ["chunk", a, b], True, False, legs=(1,))
 
 
@@ -146,6 +152,8 @@ def transcripts(N, k, f0s=(0, 1, 2), placements="all"):
             yield exons, strand, None, 0
             if placements == "all":
                 pl = [(c0, c1) for c0 in range(ln) for c1 in range(c0 + 1, ln + 1)]
+            elif placements == "full":
+                pl = [(0, ln)]
             else:  # 'ends': full, and the placements that leave one base of UTR on one/both sides
                 pl = sorted({(0, ln), (min(1, ln - 1), ln), (0, max(1, ln - 1))})
             for cds in pl:
@@ -153,12 +161,16 @@ def transcripts(N, k, f0s=(0, 1, 2), placements="all"):
                     yield exons, strand, cds, f0
 
 
-def fam_struct(N, k, all_windows):
+def fam_struct(N, k, all_windows, chunk_full="both", reduced_frames=False):
+    """reduced_frames (quick tier): legs 2/3 with start frame 0 for every CDS placement and start frames 1, 2 for the full-length
+    placement only; leg 1 still sees every (placement, start frame); the frames family runs legs 2/3 on all frame vectors"""
     genome = GENOME64[:N]
     for exons, strand, cds, f0 in transcripts(N, k):
         t = tx_spec(exons, strand, cds, f0, pid="p0" if cds else None, product="prod0" if cds else None, quals={"tq": ["tv"]})
         spec = coll_spec([gene_spec([t], quals={"gq": ["gv"]})])
-        yield from mode_cases("struct", spec, genome, N, all_windows=all_windows)
+        ln = sum(e - s for s, e in exons)
+        full = (1, 2, 3) if (not reduced_frames or cds is None or f0 == 0 or cds == (0, ln)) else (1,)
+        yield from mode_cases("struct", spec, genome, N, full_legs=full, all_windows=all_windows, chunk_full=chunk_full)
 
 
 # ---- family: frames (all frame vectors, not only consistent ones) ----------------------------------------------------------
@@ -176,18 +188,18 @@ def fam_frames(N, k):
 
 
 # ---- family: multi (2..3 isoforms per gene) -----------------------------------------------------------------------------------
-def fam_multi(N, k, N3, with_pid):
-    """all pairs of transcripts over layouts(N, k) (f0 = 0) and all triples over layouts(N3, 1); protein ids distinct / shared /
+def fam_multi(N, k, N3, with_pid, tri_pid=("distinct", "none"), tri_placements="ends"):
+    """all pairs of transcripts over layouts(N, k) (f0 = 0) and all triples over layouts(N3, 1); protein ids distinct /
     absent where at least two isoforms are coding (isoforms sharing one CDS); CDS placements: full length and one base of UTR on
     either side"""
     genome = GENOME64[:N]
     T = list(transcripts(N, k, f0s=(0,), placements="ends"))
-    T3 = list(transcripts(N3, 1, f0s=(0,), placements="ends"))
+    T3 = list(transcripts(N3, 1, f0s=(0,), placements=tri_placements))
     combos = [tuple(T[i] for i in c) for c in itertools.combinations(range(len(T)), 2)]
     combos += [tuple(T3[i] for i in c) for c in itertools.combinations(range(len(T3)), 3)]
     for combo in combos:
         ncoding = sum(1 for t in combo if t[2] is not None)
-        modes = (with_pid if len(combo) == 2 else ("distinct", "none")) if ncoding >= 2 else ("distinct",)
+        modes = (with_pid if len(combo) == 2 else tri_pid) if ncoding >= 2 else ("distinct",)
         for pid_mode in modes:
             txs = []
             for j, (exons, strand, cds, f0) in enumerate(combo):
@@ -200,46 +212,50 @@ def fam_multi(N, k, N3, with_pid):
 
 # ---- family: coll (several genes and feature collections in one collection) ---------------------------------------------------
 def fam_coll(N):
+    """full product: all unordered gene pairs (incl. identical coordinates) over layouts(N, 2) x strand x {non-coding, full-length
+    CDS}  x  {no feature collection, every feature layout touching both ends of the region, on either strand}"""
     genome = GENOME64[:N]
     G = []
     for exons in worlds.layouts(N, 2, "disjoint"):
         ln = sum(e - s for s, e in exons)
         for strand in "+-":
             G.append((exons, strand, None))
-            if ln >= 3:
-                G.append((exons, strand, (0, ln)))
+            G.append((exons, strand, (0, ln)))
     feats = [None]
     for bl in worlds.layouts(N, 2, "disjoint"):
-        if bl[0][0] in (0, 1) and bl[-1][1] in (N - 1, N):
-            feats.append(bl)
+        if bl[0][0] == 0 and bl[-1][1] == N:
+            feats.append((bl, "+"))
+            feats.append((bl, "-"))
     for (a, b) in itertools.combinations_with_replacement(range(len(G)), 2):
         ga, gb = G[a], G[b]
-        # genes are distinguished by their identifiers even when their coordinates coincide
-        g0 = gene_spec([tx_spec(ga[0], ga[1], ga[2], tid="t0", sym="ts0", pid="p0" if ga[2] else None)], gid="g0", sym="gs0", locus="lt0")
-        g1 = gene_spec([tx_spec(gb[0], gb[1], gb[2], tid="t1", sym="ts1", pid="p1" if gb[2] else None)], gid="g1", sym="gs1", locus="lt1")
-        fi = (a * 7 + b) % len(feats)
-        fb = feats[fi]
-        fcs = None
-        if fb is not None:
-            fstrand = "+-"[(a + b) % 2]
-            fcs = [fc_spec([feat_spec(fb, fstrand, types=["ft0"], quals={"fq": ["fv"]})], quals={"cq": ["cv"]})]
-        yield case("coll", coll_spec([g0, g1], fcs), genome, "chrom", True, True)
+        for fb in feats:
+            # genes are distinguished by their identifiers even when their coordinates coincide
+            g0 = gene_spec([tx_spec(ga[0], ga[1], ga[2], tid="t0", sym="ts0", pid="p0" if ga[2] else None)], gid="g0", sym="gs0", locus="lt0")
+            g1 = gene_spec([tx_spec(gb[0], gb[1], gb[2], tid="t1", sym="ts1", pid="p1" if gb[2] else None)], gid="g1", sym="gs1", locus="lt1")
+            fcs = None
+            if fb is not None:
+                fcs = [fc_spec([feat_spec(fb[0], fb[1], types=["ft0"], quals={"fq": ["fv"]})], quals={"cq": ["cv"]})]
+            yield case("coll", coll_spec([g0, g1], fcs), genome, "chrom", True, True)
 
 
-def fam_featcoll(N, k):
-    """feature collections alone: every layout x strand, one and two features per collection"""
+def fam_featcoll(N, k, N2):
+    """feature collections alone: every layout(N, k) x strand in every export mode; two features per collection: all ordered
+    pairs of layouts(N2, 2) x all strand pairs, next to a gene"""
     genome = GENOME64[:N]
-    L = list(worlds.layouts(N, k, "disjoint"))
-    for i, bl in enumerate(L):
+    for bl in worlds.layouts(N, k, "disjoint"):
         for strand in "+-":
             f0 = feat_spec(bl, strand, types=["ft0"], quals={"fq": ["fv"]})
             spec = coll_spec(None, [fc_spec([f0], quals={"cq": ["cv"]})])
             yield from mode_cases("featcoll", spec, genome, N, all_windows=False)
-            other = L[(i * 5 + 3) % len(L)]
-            f1 = feat_spec(other, "-" if strand == "+" else "+", fid="f1", name="fn1", types=["ft1"])
-            # two features on opposite strands in one collection, next to a gene
-            g = gene_spec([tx_spec(bl, strand, None)])
-            yield case("featcoll", coll_spec([g], [fc_spec([f0, f1])]), genome, "chrom", True, True)
+    L2 = list(worlds.layouts(N2, 2, "disjoint"))
+    for b0 in L2:
+        for b1 in L2:
+            for s0 in "+-":
+                for s1 in "+-":
+                    f0 = feat_spec(b0, s0, types=["ft0"], quals={"fq": ["fv"]})
+                    f1 = feat_spec(b1, s1, fid="f1", name="fn1", types=["ft1"])
+                    g = gene_spec([tx_spec(b0, s0, None)])
+                    yield case("featcoll", coll_spec([g], [fc_spec([f0, f1])]), GENOME64[:N2], "chrom", True, True)
 
 
 # ---- family: strings ------------------------------------------------------------------------------------------------------------
@@ -266,22 +282,28 @@ def has_excluded(s):
     return "," in s or '"' in s
 
 
-def fam_strings(strs):
+GENE_POSITIONS = ("gene", "tx_nc", "tx_cds")
+
+
+def fam_strings(strs, all_positions_full):
+    """every string as a qualifier key and as a qualifier value in each of the 5 positions (leg 1 everywhere), and on all identifier
+    fields.  Legs 2/3 on the three gene-model positions: all of them (thorough) or one per (string, role), rotating with the index of
+    the string so that every position meets every atom (quick)."""
     genome = GENOME64[:12]
-    for s in strs:
-        legs = (1,) if has_excluded(s) else (1, 2, 3)
-        for pos in POSITIONS:
-            for role in ("key", "value"):
+    for i, s in enumerate(strs):
+        full = (1,) if has_excluded(s) else (1, 2, 3)
+        for ri, role in enumerate(("key", "value")):
+            chosen = GENE_POSITIONS[(i + ri) % len(GENE_POSITIONS)]
+            for pos in POSITIONS:
                 quals = {s: ["pv"]} if role == "key" else {"zq": [s, "w"]}
                 g, fc = template(pos, quals)
-                # genes and feature collections are exported to separate files so that a recorded defect of one kind
-                # cannot mask the other kind
                 spec = coll_spec(None, [fc]) if pos in ("feature", "featcoll") else coll_spec([g])
+                legs = full if (all_positions_full or pos == chosen) else (1,)
                 yield case("strings", spec, genome, "chrom", True, True, legs=legs, string=s, pos=pos, role=role)
         ids = {k: pre + s for k, pre in (("gene_id", "gi"), ("gene_symbol", "gs"), ("locus_tag", "lt"), ("transcript_id", "ti"),
                                          ("transcript_symbol", "ts"), ("protein_id", "pi"), ("product", "pr"))}
         g, fc = template(ids=ids)
-        yield case("strings", coll_spec([g]), genome, "chrom", True, True, legs=legs, string=s, pos="identifiers", role="value")
+        yield case("strings", coll_spec([g]), genome, "chrom", True, True, legs=full, string=s, pos="identifiers", role="value")
     # the documented substitution for an empty value
     for pos in POSITIONS:
         g, fc = template(pos, {"zq": [""]})
@@ -366,19 +388,19 @@ def fam_refusals():
 
 def world(tier):
     if tier == "quick":
-        yield from fam_struct(6, 2, all_windows=False)
-        yield from fam_frames(5, 2)
-        yield from fam_multi(3, 2, 2, with_pid=("distinct", "none"))
-        yield from fam_coll(3)
-        yield from fam_featcoll(5, 2)
-        yield from fam_strings(strings())
+        yield from fam_struct(4, 3, all_windows=False, chunk_full="none", reduced_frames=True)
+        yield from fam_frames(4, 2)
+        yield from fam_multi(2, 2, 2, with_pid=("distinct", "none"), tri_pid=("distinct",), tri_placements="full")
+        yield from fam_coll(2)
+        yield from fam_featcoll(4, 2, 2)
+        yield from fam_strings(strings(), all_positions_full=False)
     else:
         yield from fam_struct(7, 3, all_windows=True)
         yield from fam_frames(6, 3)
-        yield from fam_multi(4, 2, 3, with_pid=("distinct", "shared", "none"))
-        yield from fam_coll(4)
-        yield from fam_featcoll(7, 3)
-        yield from fam_strings(strings())
+        yield from fam_multi(4, 2, 3, with_pid=("distinct", "none"))
+        yield from fam_coll(3)
+        yield from fam_featcoll(7, 3, 3)
+        yield from fam_strings(strings(), all_positions_full=True)
     yield from fam_reserved()
     yield from fam_ids()
     yield from fam_fasta()
@@ -386,12 +408,16 @@ def world(tier):
 
 
 def describe(tier):
+    tail = ("reserved keys x flag; missing identifiers; biotype combinations; FASTA lengths / multi-sequence files; refused flag combinations. "
+            "Legs 2/3 only on collections without feature collections")
     if tier == "quick":
-        return ("struct: layouts N=6 k<=2 x strands x every CDS placement x start frames 0-2 (single-transcript genes) x export modes; "
-                "frames: all frame vectors N=5 k=2; multi: all pairs of transcripts over N=3 k<=2 and all triples over N=2 k=1; coll: all gene pairs N=3 "
-                "(+feature collection); featcoll N=5 k<=2; strings: 342 strings x 5 positions x {key,value} + identifiers; reserved keys; "
-                "missing identifiers; biotype combinations; FASTA lengths/multi-sequence; refusals")
+        return ("struct: layouts N=4 k<=3 x strands x every CDS placement x start frames 0-2 (single-transcript genes; legs 2/3: frame 0, and frames 1-2 on full-length CDS) x export modes (chunk "
+                "mode: tightest window, leg 1; chunk-relative re-parse via the fasta family); frames: all frame vectors N=4 k=2; multi: all "
+                "pairs of transcripts over N=2 k<=2 and all triples over N=2 k=1 (full-length CDS); coll: all gene pairs N=2 x every end-to-end feature collection; "
+                "featcoll N=4 k<=2 (+ all two-feature collections N=2); strings: 342 strings x 5 positions x {key,value} (leg 1), legs 2/3 on "
+                "one gene-model position per (string, role) + all identifier fields; " + tail)
     return ("struct: layouts N=7 k<=3 x strands x every CDS placement x start frames 0-2 x every containing chunk window x export modes; "
-            "frames: all frame vectors N=6 k<=3; multi: all pairs of transcripts over N=4 k<=2 and all triples over N=3 k=1, x protein-id modes; coll: all gene "
-            "pairs N=4 (+feature collection); featcoll N=7 k<=3; strings: 342 strings x 5 positions x {key,value} + identifiers; reserved "
-            "keys; missing identifiers; biotype combinations; FASTA lengths/multi-sequence; refusals")
+            "frames: all frame vectors N=6 k<=3; multi: all pairs of transcripts over N=4 k<=2 and all triples over N=3 k=1, protein ids "
+            "distinct / absent; coll: all gene pairs N=3 x every end-to-end feature collection; featcoll N=7 k<=3 (+ all two-feature "
+            "collections N=3); strings: 342 strings x 5 positions x {key,value} + all identifier fields, legs 2/3 on every gene-model "
+            "position; " + tail)
